@@ -79,7 +79,15 @@ def check_recipe(acc, recipe, versions, ctxs, origin, check_san=True):
         for cd, ref in zip(ctxs, refs):
             if ref is None:
                 continue
-            got = rcase.run_avm(c.prog, cd, routine_info=info)
+            # the reference terminated in ref.steps node evaluations; a compiled program that needs more than 100x that many
+            # instructions (plus slack) does not terminate where the source does
+            got = rcase.run_avm(c.prog, cd, routine_info=info, max_steps=100 * ref.steps + 20000)
+            if got.dropped == "avm_timeout":
+                acc.evaluations += 1
+                acc.violation("nontermination", {"recipe": recipe, "version": v, "ctx": cd, "origin": origin},
+                              "reference evaluation finished (%s) after %d node evaluations; the compiled program was still running "
+                              "after %d instructions" % (ref.status, ref.steps, 100 * ref.steps + 20000), teal=c.teal[-3000:])
+                continue
             if got.dropped:
                 acc.counters["dropped_" + got.dropped.split(":")[0]] += 1
                 continue
